@@ -718,6 +718,7 @@ fn realfile_passwords(ctx: &mut Ctx, base: &Case, env: &Env) -> Result<(), Strin
         1 => format!("Pass-{}-{}-tail{}", base.key, "x".repeat(58), base.key),
         _ => format!("Pass-{}-{}-tail{}", base.key, "correct horse battery staple ".repeat(4), base.key),
     };
+    let password = if base.gen_seed % 4 == 0 { format!("{}\n", password) } else { password };
     set_hooks(base);
     env.subj.save_encrypted_file(&env.value, &path, true, &password).map_err(|e| format!("{:?}", e))?;
     let flip_last = |s: &str, back: usize| -> String {
@@ -735,9 +736,14 @@ fn realfile_passwords(ctx: &mut Ctx, base: &Case, env: &Env) -> Result<(), Strin
         password.to_lowercase(),
         password.to_uppercase(),
         format!("{} ", password),
+        format!("{}\n", password),
+        format!("{}\r\n", password),
+        format!("{}\t", password),
+        format!("\n{}", password),
         format!(" {}", password),
         String::new(),
         password[..password.len() - 1].to_string(),
+        password.trim_end().to_string(),
         password[1..].to_string(),
         format!("{}\0", password),
         format!("{}x", password),
